@@ -1,17 +1,27 @@
 --------------------------- MODULE PoolOpsTrace ---------------------------
 (* Binding B for C22: the calls recorded from a real TempPool (harness c22,   *)
 (* inputs = behaviours of PoolOps.tla) are judged against the statement-level *)
-(* part of PoolOps.tla: `added`, `banned` and the relations R0..R6. The pool  *)
-(* is driven sequentially, so every event is deterministic for the statement  *)
-(* level: SetOperation appends a new operation, a call adds what its filter   *)
-(* really rejected to `banned`. No event blocks; every relation a logged      *)
-(* result breaks is printed with its class and validation goes on.            *)
-(* The implementation-level variables of PoolOps (ibanned, ...) are not used. *)
+(* part of PoolOps.tla: `added`, `banned` and the relations R0..R6.           *)
+(*                                                                            *)
+(* One caller (events Set, Call): every event is deterministic for the        *)
+(* statement level: SetOperation appends a new operation, a call adds what    *)
+(* its filter really rejected to `banned`.                                    *)
+(* Overlapping calls (events CallB c / CallE c, logged in real-time order;    *)
+(* SetB / SetE when the stores run beside the calls): `run[c]` keeps what     *)
+(* PoolOps.Begin keeps for a call in flight - `banned` and Len(added) at its  *)
+(* start, what the filters of overlapping calls reject - and CallE judges the *)
+(* result as PoolOps.End does: R1, R2, R3 per call, R6 against the calls that *)
+(* had RETURNED when this one STARTED, R4c. `banned` grows when a call        *)
+(* returns (by what its filter really rejected).                              *)
+(* No event blocks; every relation a logged result breaks is printed with its *)
+(* class and validation goes on. The implementation-level variables of        *)
+(* PoolOps (ibanned, run[c].s, ...) are not used.                             *)
 EXTENDS PoolOps
 
 Trace == ndJsonDeserialize("trace.ndjson")
-VARIABLE l
-tvars == <<added, banned, l>>
+VARIABLES l,
+          pend     \* operations whose SetOperation has started and not yet returned (SetB..SetE)
+tvars == <<added, banned, run, l, pend>>
 Ev == Trace[l]
 
 Expect(class, got, want) == IF got = want THEN TRUE
@@ -20,36 +30,65 @@ B2N(b) == IF b THEN 1 ELSE 0
 Consume == l <= Len(Trace) /\ l' = l + 1
 Unused == UNCHANGED <<ibanned, nreset, ncalls, last, hist, step>>
 
-TReset == Consume /\ Ev.a = "Reset" /\ added' = <<>> /\ banned' = {} /\ Unused
+TReset == /\ Consume /\ Ev.a = "Reset" /\ Unused
+          /\ added' = <<>> /\ banned' = {} /\ pend' = {} /\ run' = [c \in Callers |-> Idle]
 
 (* R5: storing a stored operation again returns false and changes nothing *)
+SetReturned ==
+  /\ Expect("R0-set-returns", B2N(Ev.panic \/ Ev.err), 0)
+  /\ (~(Ev.panic \/ Ev.err)) => Expect("R5-set-idempotent", B2N(Ev.ret), B2N(Ev.op \notin Range(added)))
+  /\ added' = IF Ev.op \in Range(added) THEN added ELSE Append(added, Ev.op)
 TSet == /\ Consume /\ Ev.a = "Set" /\ Unused
-        /\ Expect("R0-set-returns", B2N(Ev.panic \/ Ev.err), 0)
-        /\ (~(Ev.panic \/ Ev.err)) => Expect("R5-set-idempotent", B2N(Ev.ret), B2N(Ev.op \notin Range(added)))
-        /\ added' = IF Ev.op \in Range(added) THEN added ELSE Append(added, Ev.op)
-        /\ UNCHANGED banned
+        /\ SetReturned
+        /\ UNCHANGED <<banned, run, pend>>
+(* a store that runs beside calls (one storing goroutine: the stores are ordered) *)
+TSetB == /\ Consume /\ Ev.a = "SetB" /\ Unused
+         /\ pend' = pend \cup {Ev.op}
+         /\ UNCHANGED <<added, banned, run>>
+TSetE == /\ Consume /\ Ev.a = "SetE" /\ Unused
+         /\ SetReturned
+         /\ pend' = pend \ {Ev.op}
+         /\ UNCHANGED <<banned, run>>
+
+(* what every returned call is judged against, overlapping or not: bb = banned when   *)
+(* the call started, r4 = the verdict of R4 (one caller) / R4c (overlapping calls)     *)
+Judge(ret, L, Rej, bb, r4) ==
+  /\ Expect("R0-returns", B2N(Ev.panic \/ Ev.err), 0)
+  /\ (~(Ev.panic \/ Ev.err)) =>
+       /\ Expect("R1-at-most-limit", B2N(R1(ret, L)), 1)
+       /\ Expect("R2-operations-distinct", B2N(R2ops(ret)), 1)
+       /\ Expect("R2-facts-distinct", B2N(R2facts(ret)), 1)
+       /\ Expect("R3-stored", B2N(Range(ret) \subseteq (Range(added) \cup pend) /\ Len(Ev.unstored) = 0 /\ ~Ev.metabad), 1)
+       /\ Expect("R3-passes-filter", B2N(Range(ret) \cap Rej = {}), 1)
+       /\ Expect("R4-most-recent", B2N(r4), 1)
+       /\ Expect("R6-filtered-out-again", B2N(R6(ret, bb)), 1)
 
 TCall ==
   /\ Consume /\ Ev.a = "Call" /\ Unused
-  /\ LET ret == Ev.ret
-         Rej == Range(Ev.rej)
-         L   == Ev.l
-     IN /\ Expect("R0-returns", B2N(Ev.panic \/ Ev.err), 0)
-        /\ (~(Ev.panic \/ Ev.err)) =>
-             /\ Expect("R1-at-most-limit", B2N(R1(ret, L)), 1)
-             /\ Expect("R2-operations-distinct", B2N(R2ops(ret)), 1)
-             /\ Expect("R2-facts-distinct", B2N(R2facts(ret)), 1)
-             /\ Expect("R3-stored", B2N(Range(ret) \subseteq Range(added) /\ Len(Ev.unstored) = 0 /\ ~Ev.metabad), 1)
-             /\ Expect("R3-passes-filter", B2N(Range(ret) \cap Rej = {}), 1)
-             /\ Expect("R4-most-recent", B2N(R4(ret, L, added, banned, Rej)), 1)
-             /\ Expect("R6-filtered-out-again", B2N(R6(ret, banned)), 1)
-             /\ Expect("R7-eligible-fact-missing", B2N(R7(ret, L, added, banned, Rej)), 1)
+  /\ Judge(Ev.ret, Ev.l, Range(Ev.rej), banned, R4(Ev.ret, Ev.l, added, banned, Range(Ev.rej)))
+  /\ (~(Ev.panic \/ Ev.err)) =>
+        Expect("R7-eligible-fact-missing", B2N(R7(Ev.ret, Ev.l, added, banned, Range(Ev.rej))), 1)
   /\ banned' = banned \cup Range(Ev.rejected)
-  /\ UNCHANGED added
+  /\ UNCHANGED <<added, run, pend>>
 
-TraceInit == Init /\ l = 1
-TraceNext == TReset \/ TSet \/ TCall
-TraceSpec == TraceInit /\ [][TraceNext]_<<vars, l>>
+TCallB ==
+  /\ Consume /\ Ev.a = "CallB" /\ Unused
+  /\ Ev.c \in Callers /\ ~run[Ev.c].on
+  /\ run' = Opened(Ev.c, Ev.l, Range(Ev.rej), ScanInit)
+  /\ UNCHANGED <<added, banned, pend>>
+
+TCallE ==
+  /\ Consume /\ Ev.a = "CallE" /\ Unused
+  /\ Ev.c \in Callers /\ run[Ev.c].on
+  /\ LET r == run[Ev.c]
+     IN Judge(Ev.ret, r.l, r.rej, r.bb, R4c(Ev.ret, r.l, added, r.ab, r.bb \cup r.ov, r.rej))
+  /\ banned' = banned \cup Range(Ev.rejected)
+  /\ run' = [run EXCEPT ![Ev.c] = Idle]
+  /\ UNCHANGED <<added, pend>>
+
+TraceInit == Init /\ l = 1 /\ pend = {}
+TraceNext == TReset \/ TSet \/ TSetB \/ TSetE \/ TCall \/ TCallB \/ TCallE
+TraceSpec == TraceInit /\ [][TraceNext]_<<vars, l, pend>>
 
 ASSUME TLCSet(1, 0)
 HighWater == TLCSet(1, IF l > TLCGet(1) THEN l ELSE TLCGet(1))
